@@ -10,7 +10,7 @@
     (every thread goes through the pointer: the code before the fix / after its reversal). *)
 From Coq Require Import List Bool Arith ZArith.
 Import ListNotations.
-Require Import Nib.C09.Model Nib.C09.Spec Nib.C09.Proofs.
+Require Import Nib.C09.Model Nib.C09.ModelBuf Nib.C09.Spec Nib.C09.Proofs Nib.C09.ProofsBuf.
 
 (** PARTIAL: the full statement for the sub-model [Isolated]; missing: the faithful [Shared] model (refuted below). *)
 Theorem C09_noninterference_partial : noninterference Isolated.
@@ -77,3 +77,28 @@ Print Assumptions C09_branch_isolation_generic.
 Theorem C09_checker_sound : forall o, Pb o = true -> P o.
 Proof. exact Pb_sound. Qed.
 Print Assumptions C09_checker_sound.
+
+(** ** Shared byte buffers (ModelBuf.v): package-level slices appended to by both block execution and requests. *)
+
+(** PARTIAL: the full statement for slices allocated with cap = len (every append reallocates); missing: [Spare] (refuted below). *)
+Theorem C09_buffers_noninterference_partial : buf_noninterference Exact.
+Proof. exact buf_noninterference_exact. Qed.
+Print Assumptions C09_buffers_noninterference_partial.
+
+(** With spare capacity the statement is false: DeliverTx of MsgCreateFunToken(coin 1), a simulation of
+    MsgCreateFunToken(coin 2) served between the append and the constructor reading its arguments (4 scheduling
+    decisions) — the committed ERC20 carries the metadata of coin 2. *)
+Theorem C09_buffers_noninterference_refuted :
+  ~ buf_noninterference Spare /\
+  bused (bthr (brun Spare refute_sched (binit refute_ths)) 0) = [2] /\
+  bused (bthr (brun Spare (bdeliver_only refute_sched) (binit refute_ths)) 0) = [1].
+Proof. exact (conj buf_noninterference_spare_refuted buf_spare_witness). Qed.
+Print Assumptions C09_buffers_noninterference_refuted.
+
+(** However the shared slice is allocated, code that copies before appending does not interfere. *)
+Theorem C09_buffers_copy_first :
+  forall (a : alloc) (ths : list (list bstep)) (sched : list btid),
+    (forall t, copies_first (nth t ths []) = true) ->
+    bthr (brun a sched (binit ths)) 0 = bthr (brun a (bdeliver_only sched) (binit ths)) 0.
+Proof. exact buf_noninterference_copy_first. Qed.
+Print Assumptions C09_buffers_copy_first.
